@@ -19,7 +19,7 @@ ASSUMPTIONS = [
     "violation signatures are (exception class, innermost selfies frame)",
 ]
 
-T_ALI = ["C", "N", "O", "F", "=", "#", "(", ")", "1", "2"]
+T_ALI = ["C", "N", "O", "F", "=", "#", "(", ")", "1", "2", "%"]
 T_ARO = ["c", "n", "[nH]", ":", "C", "1", "%10", ".", "[", "]", "/", "\\", "%", "*", "$", "[C@TH1]", "(", ")"]
 T_ODD = ["{", "}", "[{}]", "[C{0}]", "%s", "C", "c", "[", "]", "²", "%²³", "[٣C]", "[C+٣]", "Ⅷ", " ", "\n", "é", "Br", "B", "r", "[C@@@]", "[CH]", "[C--]",
          "[C+-]", "H", "[H]", "[2H]", "[cH-]", "b", "p", "[te]", "[si]", "[cn]", "[fe]", ":", "1", "-", "[C:1]", "[c:٣]",
@@ -110,7 +110,7 @@ _SF = None
 
 
 _TIMEOUTS = [0]          # a shard stops after 3 watchdog expiries (each costs >= 20 s); the rest is reported as a cap
-_SHARD_TIMER = [False]   # short strings of a shard share one watchdog (600 s per shard) instead of one timer per call
+_SHARD_TIMER = [False]   # short strings of a shard share one watchdog (150 s per shard) instead of one timer per call
 
 
 class Timeout(BaseException):
@@ -188,14 +188,14 @@ def run(task):
     if arg[0] == "strings":
         _, an, L, sh = arg
         w = None
-        signal.setitimer(signal.ITIMER_REAL, 600)
+        signal.setitimer(signal.ITIMER_REAL, 150)
         _SHARD_TIMER[0] = True
         try:
             for w in E1.nodes(ALPH[an], L, sh):
                 check("".join(w), r)
         except Timeout:
             r.violation("timeout", {"input": "".join(w), "strict": None, "attribute": None},
-                        "shard watchdog (600 s) expired while encoding %r" % ("".join(w),))
+                        "shard watchdog (150 s) expired while encoding %r" % ("".join(w),))
         finally:
             signal.setitimer(signal.ITIMER_REAL, 0)
             _SHARD_TIMER[0] = False
